@@ -465,6 +465,13 @@ func (e *erasureCodingPartStore) newPartReader(ctx context.Context, tx database.
 		healPipeWriters := make([]*io.PipeWriter, e.totalShards)
 		healErrCh := make(chan error, e.totalShards)
 		healingShardCount := 0
+		// Healing is opportunistic: a shard store that cannot take the rewritten
+		// shard must not fail a read that has enough shards to serve the part.
+		abandonHealing := func(i int, err error) {
+			slog.Warn("erasurecoding failed to heal shard", "partId", partId.String(), "shard", i, "err", err)
+			_ = healPipeWriters[i].CloseWithError(err)
+			healPipeWriters[i] = nil
+		}
 		if healMissing {
 			for i := 0; i < e.totalShards; i++ {
 				if !healShards[i] {
@@ -474,12 +481,16 @@ func (e *erasureCodingPartStore) newPartReader(ctx context.Context, tx database.
 				healPipeWriters[i] = pwHeal
 				healingShardCount++
 				go func(idx int, reader *io.PipeReader) {
-					healErrCh <- e.partStores[idx].PutPart(ctx, tx, partId, reader)
+					err := e.partStores[idx].PutPart(ctx, tx, partId, reader)
+					if err != nil {
+						// A shard store that fails without draining its input would
+						// otherwise block the read loop in Write forever.
+						_ = reader.CloseWithError(err)
+					}
+					healErrCh <- err
 				}(i, prHeal)
 				if _, err := pwHeal.Write(e.shardHeader(i)); err != nil {
-					_ = pwHeal.CloseWithError(err)
-					_ = pw.CloseWithError(err)
-					return
+					abandonHealing(i, err)
 				}
 			}
 		}
@@ -579,14 +590,12 @@ func (e *erasureCodingPartStore) newPartReader(ctx context.Context, tx database.
 				}
 				fh := encodeFrameHeader(stripeIndex, dataBytes, shards[i])
 				if _, err := healPipeWriters[i].Write(fh); err != nil {
-					closeHealingWriters(err)
-					_ = pw.CloseWithError(err)
-					return
+					abandonHealing(i, err)
+					continue
 				}
 				if _, err := healPipeWriters[i].Write(shards[i]); err != nil {
-					closeHealingWriters(err)
-					_ = pw.CloseWithError(err)
-					return
+					abandonHealing(i, err)
+					continue
 				}
 			}
 			buf := bytes.NewBuffer(nil)
